@@ -182,6 +182,11 @@ func (r *Run) Violate(v Violation) {
 	if v.Property == "" {
 		v.Property = r.Property
 	}
+	// keep at most three witnesses per signature; count the rest
+	r.counters["violations:"+v.Signature]++
+	if r.counters["violations:"+v.Signature] > 3 {
+		return
+	}
 	r.violations = append(r.violations, v)
 }
 
